@@ -278,8 +278,8 @@ def _S(n):
     return Sc(sym.Sym(n))
 
 
-DEG = facets.DegDecl(inputs={"gx": 1, "gy": 1}, syms={"mx": 1, "my": 1, "sxx": 2, "syy": 2, "sxy": 2, "x": 1, "y": 1,
-                                                         "sx": 2, "sy": 2, "w": 1, "h": 1, "m0": 1, "m1": 1})
+DEG = facets.DegDecl(inputs={"gx": 1, "gy": 1, "X": 1, "bg": 1, "pg": 1}, syms={"mx": 1, "my": 1, "sxx": 2, "syy": 2, "sxy": 2, "x": 1, "y": 1,
+                                                         "sx": 2, "sy": 2, "w": 1, "h": 1, "m0": 1, "m1": 1, "s": 2, "s1": 2, "s2": 2})
 
 
 def _units(rep, I, fi_names, rule="KN-UNITS"):
